@@ -5,6 +5,7 @@ package main
 import (
 	"fmt"
 	"go/token"
+	"go/types"
 	"strings"
 
 	"golang.org/x/tools/go/ssa"
@@ -119,9 +120,17 @@ func runDirSource(c *Ctx) {
 	}
 }
 
+// filesField: the source's list of pending file names: its one []string field (whatever it is called).
+func filesField(t types.Type) string {
+	if f := fieldOfType(t, "[]string"); f != "" {
+		return f
+	}
+	return "fileNames"
+}
+
 func isFileNamesAddr(v ssa.Value, recv ssa.Value) bool {
 	fa, ok := v.(*ssa.FieldAddr)
-	return ok && fa.X == recv && fieldName(fa.X.Type(), fa.Field) == "fileNames"
+	return ok && fa.X == recv && fieldName(fa.X.Type(), fa.Field) == filesField(fa.X.Type())
 }
 
 func isLoadOfFileNames(v ssa.Value, recv ssa.Value) bool {
@@ -364,7 +373,14 @@ func dirCtor(c *Ctx, fn *ssa.Function) {
 		c.Violated("DIR", fname, "every entry listed", pos, "no range loop over the directory listing")
 		return
 	}
-	// every path through the body appends invoke Name() of the element to source.fileNames
+	// every trip through the body appends the entry's Name() exactly once to the list of names: either directly to the
+	// source's field, or to a local slice that is later stored into that field
+	var acc *ssa.Phi // local-slice form: the loop-carried slice
+	for _, in := range theLoop.Header.Instrs {
+		if phi, ok := in.(*ssa.Phi); ok && shortType(phi.Type()) == "[]string" {
+			acc = phi
+		}
+	}
 	nPaths := acyclicPaths(theLoop.Header, func(path []*ssa.BasicBlock, looped bool) {
 		if !looped {
 			return // loop exit path
@@ -372,25 +388,40 @@ func dirCtor(c *Ctx, fn *ssa.Function) {
 		appends := 0
 		for _, b := range path {
 			for _, in := range b.Instrs {
-				st, ok := in.(*ssa.Store)
-				if !ok {
-					continue
-				}
-				fa, ok := st.Addr.(*ssa.FieldAddr)
-				if !ok || fieldName(fa.X.Type(), fa.Field) != "fileNames" {
-					continue
-				}
-				if isAppendOf(st.Val, st.Addr) {
-					el := appendedElem(st.Val)
-					// the variadic slice holds the element's Name()
-					if hasNameCall(el) {
-						appends++
-						src = fa.X
-					} else {
-						problems = append(problems, p.ipos(st)+": appended value is not the entry's Name()")
+				switch x := in.(type) {
+				case *ssa.Store:
+					fa, ok := x.Addr.(*ssa.FieldAddr)
+					if !ok || fieldName(fa.X.Type(), fa.Field) != filesField(fa.X.Type()) || typeName(fa.X.Type()) != "journal.DirectoryGtfsrtSource" {
+						continue
 					}
-				} else {
-					problems = append(problems, p.ipos(st)+": fileNames assigned something other than append(fileNames, name)")
+					if isAppendOf(x.Val, x.Addr) {
+						if hasNameCall(appendedElem(x.Val)) {
+							appends++
+							src = fa.X
+						} else {
+							problems = append(problems, p.ipos(x)+": appended value is not the entry's Name()")
+						}
+					} else {
+						problems = append(problems, p.ipos(x)+": the list of names is assigned something other than append(list, name)")
+					}
+				case *ssa.Call:
+					if acc != nil && isBuiltin(x, "append") && shortType(x.Type()) == "[]string" && reachesPhi(x.Call.Args[0], acc, theLoop, 0) {
+						// must be the value carried to the next iteration
+						carried := false
+						for _, ed := range acc.Edges {
+							if ed == ssa.Value(x) {
+								carried = true
+							}
+						}
+						if !carried {
+							problems = append(problems, p.ipos(x)+": an appended list is dropped")
+						}
+						if hasNameCall(appendedElem(x)) {
+							appends++
+						} else {
+							problems = append(problems, p.ipos(x)+": appended value is not the entry's Name()")
+						}
+					}
 				}
 			}
 		}
@@ -400,25 +431,53 @@ func dirCtor(c *Ctx, fn *ssa.Function) {
 	})
 	_ = nPaths
 	c.Check(len(problems) == 0, "DIR", fname, "every entry listed", pos, "each directory entry's Name() is appended exactly once", strings.Join(dedup(problems), "; "))
-	// sort.Strings(fileNames) after the loop, dominating the successful return
+	// the list is sorted after the loop, before every successful return, and what the source keeps is that sorted list
+	isList := func(v ssa.Value) bool {
+		if src != nil {
+			if ld, ok := v.(*ssa.UnOp); ok {
+				if fa, ok := ld.X.(*ssa.FieldAddr); ok && fa.X == src && fieldName(fa.X.Type(), fa.Field) == filesField(fa.X.Type()) {
+					return true
+				}
+			}
+			return false
+		}
+		return acc != nil && v == ssa.Value(acc)
+	}
 	var sortCall *ssa.Call
 	for _, b := range fn.Blocks {
 		if theLoop.Blocks[b] {
 			continue
 		}
 		for _, in := range b.Instrs {
-			if call, ok := in.(*ssa.Call); ok && calleeName(call) == "sort.Strings" {
-				if ld, ok := call.Call.Args[0].(*ssa.UnOp); ok {
-					if fa, ok := ld.X.(*ssa.FieldAddr); ok && fa.X == src && fieldName(fa.X.Type(), fa.Field) == "fileNames" {
-						sortCall = call
-					}
-				}
+			if call, ok := in.(*ssa.Call); ok && calleeName(call) == "sort.Strings" && isList(call.Call.Args[0]) {
+				sortCall = call
 			}
 		}
 	}
 	okSort := sortCall != nil && theLoop.Header.Dominates(sortCall.Block())
 	if okSort {
+		stored := src != nil
 		for _, b := range fn.Blocks {
+			// stores to the source's list after the sort: only the sorted local list itself (composite literal form)
+			for _, in := range b.Instrs {
+				st, ok := in.(*ssa.Store)
+				if !ok {
+					continue
+				}
+				fa, ok := st.Addr.(*ssa.FieldAddr)
+				if !ok || fieldName(fa.X.Type(), fa.Field) != filesField(fa.X.Type()) || typeName(fa.X.Type()) != "journal.DirectoryGtfsrtSource" {
+					continue
+				}
+				if src == nil {
+					if isList(st.Val) && dominatesInstr(sortCall, st) {
+						stored = true
+					} else {
+						okSort = false
+					}
+				} else if dominatesInstr(sortCall, st) {
+					okSort = false
+				}
+			}
 			ret, isRet := b.Instrs[len(b.Instrs)-1].(*ssa.Return)
 			if !isRet || isNilConst(ret.Results[0]) {
 				continue
@@ -426,17 +485,12 @@ func dirCtor(c *Ctx, fn *ssa.Function) {
 			if !dominatesInstr(sortCall, ret) {
 				okSort = false
 			}
-			// no store to fileNames between sort and return
-			for _, in := range b.Instrs {
-				if st, ok := in.(*ssa.Store); ok && dominatesInstr(sortCall, st) {
-					if fa, ok := st.Addr.(*ssa.FieldAddr); ok && fieldName(fa.X.Type(), fa.Field) == "fileNames" {
-						okSort = false
-					}
-				}
-			}
+		}
+		if !stored {
+			okSort = false
 		}
 	}
-	c.Check(okSort, "DIR", fname, "names sorted before the source is returned", pos, "sort.Strings(fileNames) dominates every successful return and nothing reorders afterwards", "file names are not sorted lexicographically on every path to the successful return")
+	c.Check(okSort, "DIR", fname, "names sorted before the source is returned", pos, "sort.Strings(names) dominates every successful return, the source keeps that list and nothing reorders it afterwards", "file names are not sorted lexicographically on every path to the successful return")
 }
 
 func hasNameCall(v ssa.Value) bool {
